@@ -265,7 +265,7 @@ CallClosure(q) == {q} \cup UNION {CallClosure(c) : c \in Callees(q)}
 -----------------------------------------------------------------------------
 (* C03/C04/C08: optimum over all dispatch histories that only pick          *)
 (* operations surviving the filter composition F (F = <<>>: all histories). *)
-Infinity == 1000000
+Infinity == 2000000000     \* above every makespan the checks produce (TLC integers are 32-bit)
 RECURSIVE OptFrom(_, _, _)
 OptFrom(I, s, F) ==
     LET A == Avail(I, s, F)
